@@ -276,6 +276,13 @@ class Check:
         self.exhaustive = False
         self.rule = ""
         self.extra = {}
+        # replay files of earlier runs of this property are stale
+        import glob
+        for old in glob.glob(os.path.join(VERIF, "replays", pid + "-*.json")):
+            try:
+                os.remove(old)
+            except OSError:
+                pass
 
     def count(self, key, n=1):
         self.distribution[key] = self.distribution.get(key, 0) + n
